@@ -18,6 +18,8 @@ CHECKS = {
  "C09": dict(engine="symtorch+z3", tech="symbolic execution of SWAP.apply on all ordered pairs, exactly weighted, vs explicit partial trace; sum-of-squares certificate; z3 on residuals", design="2/C09"),
  "C10": dict(engine="symtorch+z3", tech="symbolic execution of fidelity/NLL/KL with symbolic models and symbolic targets vs the defining formulas; opaque logs with normal-form congruence; z3 on residuals", design="2/C10"),
  "C12": dict(engine="pathfork", level=("model_checking", "Path-by-path symbolic execution of the real fit/callback code: z3 decides the feasibility of every branch on the symbolic inputs (pathfork), every feasible path within the stated bounds is executed on the real code and checked against a reference generator of the documented protocol. Bounded (epoch ranges, batch counts), exhaustive within the bounds."), note="Trusted: vf/pathfork.py (fork-on-branch executor), z3; numerics of the batch update are stubbed (listed in the evidence).", tech="pathfork: z3-decided path exploration of the real fit loop vs a reference protocol generator", design="2/C12"),
+ "C17": dict(engine="pathfork", level=("model_checking", "Path-by-path symbolic execution of the real callback / training-loop code: z3 decides the feasibility of every branch on the symbolic inputs (pathfork), every feasible path within the stated bounds is executed on the real code and compared with an independent reference. Bounded, exhaustive within the bounds."), note="Trusted: vf/pathfork.py (fork-on-branch executor), z3; stubs listed in the evidence.", tech="pathfork: z3-decided path exploration of the real fit loop with periodic callbacks (real files via torch.save/load) vs an independent record", design="2/C17"),
+ "C18": dict(engine="pathfork", level=("model_checking", "Path-by-path symbolic execution of the real callback / training-loop code: z3 decides the feasibility of every branch on the symbolic inputs (pathfork), every feasible path within the stated bounds is executed on the real code and compared with an independent reference. Bounded, exhaustive within the bounds."), note="Trusted: vf/pathfork.py (fork-on-branch executor), z3; stubs listed in the evidence.", tech="pathfork with symbolic REAL metric sequences: z3 decides every comparison of the real EarlyStopping code; stop epoch vs reference rule", design="2/C18"),
  "C15": dict(engine="symtorch+z3", tech="symbolic execution of every cplx function vs complex-scalar arithmetic; z3 on residuals", design="2/C15"),
 }
 CHECKS.update(json.load(open(os.path.join(HERE, "bin", "manifest_extra.json"))) if os.path.exists(os.path.join(HERE, "bin", "manifest_extra.json")) else {})
